@@ -292,7 +292,7 @@ _ext("C10", "Aead AeadBoundsRtp AeadBoundsRtcp",
   ("", "AeadBoundsRtp.v", "unprotect_aead_overlong_extension_refused"),
   ("AES-GCM SRTCP", "AeadBoundsRtcp.v", "protect_rtcp_aead_no_oob"),
   ("", "AeadBoundsRtcp.v", "unprotect_rtcp_aead_no_oob")], _AEAD_NOTE)
-_ext("C11", "Aead AeadBoundsRtp AeadBoundsRtcp TrailerProofs",
+_ext("C11", "Aead AeadBoundsRtp AeadBoundsRtcp TrailerProofs TrailerPostProofs",
  [("AES-GCM: output length = input + tag + MKI, within capacity", "AeadBoundsRtp.v", "protect_aead_length"),
   ("", "AeadBoundsRtp.v", "protect_aead_small_buffer_refused"),
   ("", "AeadBoundsRtp.v", "unprotect_aead_length"),
@@ -307,7 +307,17 @@ _ext("C11", "Aead AeadBoundsRtp AeadBoundsRtcp TrailerProofs",
   ("what srtp_protect appends is never more than the query on that session reports (all four packet functions)", "TrailerProofs.v", "protect_within_query"),
   ("", "TrailerProofs.v", "protect_rtcp_within_query"),
   ("", "TrailerProofs.v", "protect_aead_within_query"),
-  ("", "TrailerProofs.v", "protect_rtcp_aead_within_query")], _AEAD_NOTE)
+  ("", "TrailerProofs.v", "protect_rtcp_aead_within_query"),
+  ("frame of a packet call (ANY result): it touches replay state / pending ROC / direction / budgets of the one stream it used, may charge the template's budgets and may append one clone of the template; keys, services, MKI setting of every stream are left alone", "TrailerPostProofs.v", "protect_frame"),
+  ("... hence every stream keeps its trailer and a new clone has the template's", "TrailerPostProofs.v", "protect_keeps_streams"),
+  ("... hence the query returns the same value before and after any packet call", "TrailerPostProofs.v", "trailer_length_stable"),
+  ("", "TrailerPostProofs.v", "trailer_length_stable_rtcp"),
+  ("", "TrailerPostProofs.v", "trailer_length_stable_aead"),
+  ("", "TrailerPostProofs.v", "trailer_length_stable_rtcp_aead"),
+  ("the query made AFTER the call covers what the call appended", "TrailerPostProofs.v", "protect_within_query_post"),
+  ("", "TrailerPostProofs.v", "protect_rtcp_within_query_post"),
+  ("", "TrailerPostProofs.v", "protect_aead_within_query_post"),
+  ("", "TrailerPostProofs.v", "protect_rtcp_aead_within_query_post")], _AEAD_NOTE)
 _ext("C12", "Aead AeadRoundTripRtcp AeadRoundTripRtp",
  [("AES-GCM: srtp_unprotect_aead refines a pure function for every input (streams without cryptex)", "AeadRoundTripRtp.v", "unprotect_aead_refines"),
   ("", "AeadRoundTripRtp.v", "unprotect_aead_alias_independent"),
